@@ -1,11 +1,15 @@
-// h_C06.cpp — harness for C06: a probe subclass of SIS driven synchronously
-// (initialization_step(), then K times filtering_step(); no thread), with a
+// h_C06.cpp — harness for C06: a probe subclass of SIS run by the LIBRARY's own
+// filtering thread (boot(); run(); wait()): the probe's run_condition() ends the
+// loop after K steps, its filtering_step() sets the step's skip commands, calls
+// SIS::filtering_step() and dumps both particle sets; step_number() is the
+// library's counter (FilteringAlgorithm.cpp: reset to 0, ++ after every step).  With a
 // scripted MeasurementModel (freeze result per step), a scripted
 // LikelihoodModel (vector or invalid per step), DrawParticles over a
 // deterministic StateModel, BootstrapCorrection and a call-logging Resampling
 // whose random offset is mirrored (same engine, seed and order of draws).
 // Operands: init_state (d x N), init_lw (N x 1), lik (K x N), shift (K x d),
-// a (1 x 1), words freeze / skipp / skipc / likvalid (K tokens 0|1), int seed.
+// init_mean (d x N), init_cov (d x d*N), a (1 x 1), words freeze / likvalid (K tokens 0|1),
+// word cmd (K tokens none|prediction|state|correction|all: the skip command in force during the step), int seed.
 // Histories with meta likmodel=gauss use the library's GaussianLikelihood over a
 // linear measurement model (H, Rm, measurements ys (K x m), scale (1 x 1)); there
 // "likvalid" says whether measure() succeeds.  The likelihood vector of every step
@@ -34,6 +38,8 @@ static bool flag(const char* name, long k) { return g_case->word(name).at(k) == 
 struct ScriptedInit : public ParticleSetInitialization {
     bool initialize(ParticleSet& p) override {
         p.state() = g_case->mat("init_state");
+        p.mean() = g_case->mat("init_mean");
+        p.covariance() = g_case->mat("init_cov");
         p.weight() = g_case->mat("init_lw");
         return true;
     }
@@ -116,16 +122,6 @@ struct LoggingResampling : public Resampling {
     double neff(const Ref<const VectorXd>& w) override { neff_calls++; last_neff = Resampling::neff(w); return last_neff; }
 };
 
-struct ProbeSIS : public SIS {
-    using SIS::SIS;
-    unsigned int my_step = 0;
-    unsigned int step_number() override { return my_step; }
-    bool do_init() { return initialization_step(); }
-    void do_step() { filtering_step(); ++my_step; }
-    const ParticleSet& predp() const { return pred_particle_; }
-    const ParticleSet& corp() const { return cor_particle_; }
-};
-
 static void dump_set(const std::string& tag, long k, const ParticleSet& s) {
     const std::string sk = std::to_string(k);
     vf::out_int(tag + "n" + sk, s.components);
@@ -134,7 +130,59 @@ static void dump_set(const std::string& tag, long k, const ParticleSet& s) {
     vf::out_int(tag + "cols" + sk, s.state().cols());
     vf::out_mat(tag + "lw" + sk, s.weight());
     vf::out_mat(tag + "st" + sk, s.state());
+    vf::out_mat(tag + "mn" + sk, s.mean());
+    vf::out_mat(tag + "cv" + sk, s.covariance());
 }
+
+struct ProbeSIS : public SIS {
+    using SIS::SIS;
+    long K = 0, done = 0;
+    bool init_ok = false;
+    ScriptedMeasurement* meas = nullptr;
+    LoggingResampling* res = nullptr;
+    BootstrapCorrection* bc = nullptr;
+    std::string cur_cmd = "none";
+    bool run_condition() override { return done < K; }
+    bool initialization_step() override {
+        vf::Entry e("SIS::initialization_step");
+        init_ok = SIS::initialization_step();
+        return init_ok;
+    }
+    // one step: the skip command of this step is issued (the previous one withdrawn), then the library's step runs
+    void filtering_step() override {
+        const long k = done;
+        g_step = k;
+        const std::string sk = std::to_string(k);
+        vf::out_int("lstep" + sk, (long)step_number());          // the library's counter, before its increment
+        const std::string cmd = g_case->word("cmd").at(k);       // none | prediction | state | correction | all
+        if (cmd != cur_cmd) {
+            vf::Entry e("ParticleFilter::skip");
+            if (cur_cmd != "none") skip(cur_cmd, false);
+            if (cmd != "none") skip(cmd, true);
+            cur_cmd = cmd;
+        }
+        const int rc0 = res->resample_calls, nc0 = res->neff_calls, lc0 = g_lik_calls, fc0 = meas->freeze_calls;
+        { vf::Entry e("SIS::filtering_step"); SIS::filtering_step(); }
+        dump_set("c", k, cor_particle_);
+        dump_set("p", k, pred_particle_);
+        vf::out_int("res" + sk, res->resample_calls - rc0);
+        vf::out_int("neffcalls" + sk, res->neff_calls - nc0);
+        vf::out_int("likcalls" + sk, g_lik_calls - lc0);
+        vf::out_int("freezecalls" + sk, meas->freeze_calls - fc0);
+        vf::out_num("neff" + sk, res->last_neff);
+        if (g_lik_calls > lc0) {
+            bool lvalid; VectorXd lvec;
+            { vf::Entry e("BootstrapCorrection::getLikelihood"); std::tie(lvalid, lvec) = bc->getLikelihood(); }
+            vf::out_int("lv" + sk, lvalid ? 1 : 0);
+            if (lvalid) vf::out_mat("lik" + sk, lvec);
+        }
+        if (res->resample_calls > rc0) {
+            vf::out_num("u1_" + sk, res->last_u1);
+            vf::out_mat("par" + sk, res->last_parents.cast<double>());
+        }
+        ++done;
+    }
+};
 
 int main() {
     vf::Case c;
@@ -153,38 +201,18 @@ int main() {
         std::unique_ptr<PFCorrection> corr(bc);
         ProbeSIS sis((unsigned)N, (std::size_t)dl, (std::size_t)dc, std::unique_ptr<ParticleSetInitialization>(new ScriptedInit()),
                      std::move(pred), std::move(corr), std::unique_ptr<Resampling>(res));
+        sis.K = K; sis.meas = meas; sis.res = res; sis.bc = bc;
         g_step = 0; g_lik_calls = 0;
-        bool init_ok;
-        { vf::Entry e("SIS::initialization_step"); init_ok = sis.do_init(); }
         vf::out_begin(c.id);
-        vf::out_int("init_ok", init_ok ? 1 : 0);
-        bool skp = false, skc = false;
-        for (long k = 0; k < K; k++) {
-            g_step = k;
-            const bool wp = flag("skipp", k), wc = flag("skipc", k);
-            if (wp != skp) { vf::Entry e("ParticleFilter::skip"); sis.skip("prediction", wp); skp = wp; }
-            if (wc != skc) { vf::Entry e("ParticleFilter::skip"); sis.skip("correction", wc); skc = wc; }
-            const int rc0 = res->resample_calls, nc0 = res->neff_calls, lc0 = g_lik_calls, fc0 = meas->freeze_calls;
-            { vf::Entry e("SIS::filtering_step"); sis.do_step(); }
-            const std::string sk = std::to_string(k);
-            dump_set("c", k, sis.corp());
-            dump_set("p", k, sis.predp());
-            vf::out_int("res" + sk, res->resample_calls - rc0);
-            vf::out_int("neffcalls" + sk, res->neff_calls - nc0);
-            vf::out_int("likcalls" + sk, g_lik_calls - lc0);
-            vf::out_int("freezecalls" + sk, meas->freeze_calls - fc0);
-            vf::out_num("neff" + sk, res->last_neff);
-            if (g_lik_calls > lc0) {
-                bool lvalid; VectorXd lvec;
-                { vf::Entry e("BootstrapCorrection::getLikelihood"); std::tie(lvalid, lvec) = bc->getLikelihood(); }
-                vf::out_int("lv" + sk, lvalid ? 1 : 0);
-                if (lvalid) vf::out_mat("lik" + sk, lvec);
-            }
-            if (res->resample_calls > rc0) {
-                vf::out_num("u1_" + sk, res->last_u1);
-                vf::out_mat("par" + sk, res->last_parents.cast<double>());
-            }
-        }
+        // the filtering thread is the only writer between boot() and wait()
+        bool booted;
+        { vf::Entry e("FilteringAlgorithm::boot"); booted = sis.boot(); }
+        sis.run();
+        sis.wait();
+        vf::out_int("booted", booted ? 1 : 0);
+        vf::out_int("init_ok", sis.init_ok ? 1 : 0);
+        vf::out_int("steps_done", sis.done);
+        vf::out_int("final_step_number", (long)sis.step_number());
         vf::out_end();
     }
     return 0;
